@@ -108,10 +108,10 @@ func checkDefs() map[string]CheckDef {
 	add(CheckDef{
 		ID: "C13",
 		Obligations: []Obligation{
-			{Pkg: "internal/verifh/c13", Harness: "VerifC13Buffer", Quick: map[string]int{"L": 6, "symLenK": 9}, Thor: map[string]int{"L": 8, "symLenK": 11}, TV: 15},
-			{Pkg: "internal/verifh/c13", Harness: "VerifC13Window", Quick: map[string]int{"W": 4, "stride": 4, "symLenK": 9}, Thor: map[string]int{"allTemplates": 1}, TV: 15},
+			{Pkg: "internal/verifh/c13", Harness: "VerifC13Buffer", Quick: map[string]int{"L": 6, "symLenK": 9}, TV: 15},
+			{Pkg: "internal/verifh/c13", Harness: "VerifC13Window", Quick: map[string]int{"W": 4, "stride": 4, "symLenK": 9}, TV: 15},
 			{Pkg: "internal/verifh/c13", Harness: "VerifC13PB", Quick: map[string]int{"maxSites": 70}, TV: 60},
-			{Pkg: "internal/verifh/c13", Harness: "VerifC13Zeros", Quick: map[string]int{"maxLen": 14}, Thor: map[string]int{"maxLen": 20}, TV: 15, Note: "every decoder on buffers of length 0..maxLen that are zero except 3 arbitrary bytes at an arbitrary offset"},
+			{Pkg: "internal/verifh/c13", Harness: "VerifC13Zeros", Quick: map[string]int{"maxLen": 14}, TV: 15, Note: "every decoder on buffers of length 0..maxLen that are zero except 3 arbitrary bytes at an arbitrary offset"},
 			{Pkg: "internal/verifh/c13", Harness: "VerifC13BigIntLong", TV: 10, Note: "big integer decoder with declared lengths 0,1,127..130,200,255 and the payload present: lengths above the limit are refused whatever the value"},
 			{Pkg: "internal/verifh/c13", Harness: "VerifC13SparseSigs", Quick: map[string]int{"maxSlots": 9}, TV: 15, Note: "sparse signature decoder with the full payload present (0..9 slots, arbitrary mask incl. padding bits)"},
 		},
